@@ -721,6 +721,8 @@ class TermEval:
             return "".join(out)
         if isinstance(node, ast.Call):
             f = node.func
+            if isinstance(f, ast.Name) and f.id == "sorted" and len(node.args) == 1 and len(node.keywords) == 1 and node.keywords[0].arg == "reverse" and isinstance(node.keywords[0].value, ast.Constant):
+                return tuple(sorted(self.const(node.args[0], env, fn, depth), reverse=bool(node.keywords[0].value.value)))
             if isinstance(f, ast.Name) and f.id in {"sorted", "tuple", "list", "set", "frozenset", "str", "int", "len", "next", "iter", "map"} and not node.keywords:
                 args = [self.const(a, env, fn, depth) if not (f.id == "map" and i == 0) else a for i, a in enumerate(node.args)]
                 if f.id == "sorted":
